@@ -94,7 +94,10 @@ def _canon(obj):
 	try:
 		import torch
 		if isinstance(obj, torch.Tensor):
-			return _canon(obj.detach().cpu().numpy())
+			t = obj.detach().cpu()
+			if t.dtype == torch.bfloat16:
+				return b"bf16" + _canon(t.to(torch.float32).numpy())
+			return _canon(t.numpy())
 	except ImportError:
 		pass
 	if isinstance(obj, numpy.generic):
